@@ -24,7 +24,7 @@ TITLE = 'escaping of inserted values'
 LEVEL = 'exploration'
 SHARDS = {'quick': 16, 'thorough': 16}
 FLOOR = {'quick': 800, 'thorough': 3000}
-REQUIRED_MONITORS = {'sites-checked': 4000, 'opt-outs-checked': 500}
+REQUIRED_MONITORS = {'sites-checked': 1200, 'opt-outs-checked': 150}
 RULE = ('a case = (site kind, wrapper, hostile value, neighbours); 17 site kinds {element text, "attr", \'attr\', two '
         'interpolations in one attribute, tal:attributes onto new / "static" / \'static\' attribute, dictionary attribute value, '
         'comment, tal:content, tal:replace, string: in content, string: in attribute, ${} inside i18n:translate, i18n:name '
